@@ -174,7 +174,8 @@ def loop_form(facts, b):
     if not xenv or 0 not in xenv or xenv[0][0] != 'local':
         return None, 'the value returned after the loop is not a plain local'
     acc_name = xenv[0][1]
-    acc = [i for i in range(len(b.locals)) if (b.local_names.get(i, i) == acc_name or i == acc_name) and b.local_ty(i).get('s') == 'u32']
+    # (parameters are never named by their source name in these terms - see `op` - so a local shadowing `crc` is not ambiguous)
+    acc = [i for i in range(b.arg_count + 1, len(b.locals)) if (b.local_names.get(i, i) == acc_name or i == acc_name) and b.local_ty(i).get('s') == 'u32']
     if acc_name == 'acc' and not acc:
         acc = crc_i            # the parameter itself (`mut crc`) is the accumulator
     if len(acc) != 1:
@@ -391,7 +392,7 @@ def run(ck):
     ck.rule('C12.R3 shape of crc32', 1, 1)
     # ---- R4: field order and seed in DefaultCrc::calculate_crc32
     key = '<crc::DefaultCrc as crc::CrcCalculator>::calculate_crc32'
-    a = ck.analyse(key, {'kslots': 2, 'no_inline': {'crc::crc32'}})
+    a = ck.analyse(key, {'kslots': 2, 'no_inline': {'crc::crc32'}, 'pure_calls': {'crc::crc32'}})      # crc32 reads its two arguments only (R2/R3) and calculate_crc32 writes no memory
     evs = [r for r in a.events('call') if r.data[1] == 'crc::crc32']
     ck.rule('C12.R4 crc32 calls in DefaultCrc::calculate_crc32', len(evs), 4)
     names = {r: a.arg(r) for r in ('pdu', 'protocol_type', 'total_length', 'label')}
@@ -399,6 +400,25 @@ def run(ck):
     prev = None
     ck.obligations += 6
     if len(evs) == 4:
+        # call order: the call seeded with the constant first, then the call seeded with the result of the previous one (the four
+        # calls may be one call site executed four times, `for part in [a, b, c, d] { crc = crc32(part, crc) }`)
+        def seeded_by(r_, p_):
+            sd = r_.data[3][1]
+            if sd[0] != 'int' or len(sd[1].terms) != 1 or sd[1].const != 0:
+                return False
+            dfn = ATOMS.info(sd[1].terms[0][0]).defn
+            return bool(dfn) and dfn[0] == 'call' and tuple(dfn[2]) == tuple(p_.data[3])
+        first = [r_ for r_ in evs if r_.data[3][1][0] == 'int' and r_.data[3][1][1].is_const()]
+        if len(first) == 1:
+            order_, rest_ = [first[0]], [r_ for r_ in evs if r_ is not first[0]]
+            while rest_:
+                nxt = [r_ for r_ in rest_ if seeded_by(r_, order_[-1])]
+                if len(nxt) != 1:
+                    break
+                order_.append(nxt[0])
+                rest_.remove(nxt[0])
+            if not rest_:
+                evs = order_
         okc = True
         for i, r in enumerate(evs):
             args = r.data[3]
